@@ -26,7 +26,7 @@ Definition ex_o (dfs : bool) : opts := {| o_min := 2; o_max := 3; o_dfs := dfs; 
 Definition ex_o_wide (dfs : bool) : opts := {| o_min := 0; o_max := 0; o_dfs := dfs; o_arc := true; o_ign := false |}.
 
 Lemma ex_canon_ok : canon_ok ex_c.
-Proof. split; [vm_compute; reflexivity|vm_compute; discriminate]. Qed.
+Proof. right. split; [vm_compute; reflexivity|vm_compute; discriminate]. Qed.
 Lemma ex_names_ok : names_ok ex_kids.
 Proof. vm_compute. reflexivity. Qed.
 Lemma ex_nodup : NoDup (1 :: inodes_of ex_kids).
@@ -112,3 +112,80 @@ Check ex_T4.
 Print Assumptions ex_T1.
 Print Assumptions ex_T2.
 Print Assumptions ex_T4.
+
+(* ---------- the root directory "/" as a search root ---------- *)
+(* calc_depth "/" = 1, "/usr" = 2, "/usr/lib" = 3; canon_ok holds for "/" and for every absolute path
+   without a trailing separator *)
+Example calc_depth_examples :
+  calc_depth (nm "/") = 1 /\ calc_depth (nm "/usr") = 2 /\ calc_depth (nm "/usr/lib") = 3 /\
+  calc_depth (join_path (nm "/") (nm "usr")) = calc_depth (nm "/") + 1.
+Proof. repeat split; vm_compute; reflexivity. Qed.
+Example canon_ok_root : canon_ok [47].
+Proof. left. reflexivity. Qed.
+Example canon_ok_usr : canon_ok (Str.s "/usr").
+Proof. right. split; [vm_compute; reflexivity|vm_compute; discriminate]. Qed.
+Example canon_ok_rejects : ~ canon_ok (nm "/usr/") /\ ~ canon_ok (nm "usr") /\ ~ canon_ok [].
+Proof.
+  repeat split; intros [E|[E1 E2]]; try discriminate E; try discriminate E1; vm_compute in E2; now apply E2.
+Qed.
+
+(* / { etc/ { passwd, ssl/ { cert } }, usr/ { lib/ { x/ { deep } } }, f } *)
+Definition rt_kids : list node :=
+  [ NDir (nm "etc") 2 false true
+      [ NFile (nm "passwd") 10 false None;
+        NDir (nm "ssl") 3 false true [ NFile (nm "cert") 11 false None ] ];
+    NDir (nm "usr") 4 false true
+      [ NDir (nm "lib") 5 false true [ NDir (nm "x") 6 false true [ NFile (nm "deep") 12 false None ] ] ];
+    NFile (nm "f") 13 false None ].
+Definition rt_root : node := NDir (nm "/") 1 false true rt_kids.
+Definition rt_o (mn mx : N) (dfs : bool) : opts := {| o_min := mn; o_max := mx; o_dfs := dfs; o_arc := false; o_ign := false |}.
+
+(* from / maxdepth 2: exactly the entries at depths 1 and 2 (nothing at depth 3: no /etc/ssl/cert, no /usr/lib/x) *)
+Example rt_dfs_max2 :
+  option_map (fun s1 => (map fst (out s1), errs s1))
+             (walk_root (fun _ => true) false 0 (rt_o 0 2 true) 6 (nm "/") (nm "/") rt_root st0) =
+  Some ([ nm "/etc"; nm "/etc/passwd"; nm "/etc/ssl"; nm "/usr"; nm "/usr/lib"; nm "/f" ], []).
+Proof. vm_compute. reflexivity. Qed.
+Example rt_bfs_max2 :
+  option_map (fun s1 => (map fst (out s1), errs s1))
+             (walk_roots (fun _ => true) false 0 8 [ (rt_o 0 2 false, nm "/", nm "/", rt_root) ] st0) =
+  Some ([ nm "/etc"; nm "/usr"; nm "/f"; nm "/etc/passwd"; nm "/etc/ssl"; nm "/usr/lib" ], []).
+Proof. vm_compute. reflexivity. Qed.
+(* mindepth 2 maxdepth 2: depth 2 only; mindepth 3 maxdepth 3: depth 3 only; maxdepth 1: the three top entries *)
+Example rt_dfs_windows :
+  option_map (fun s1 => map fst (out s1))
+             (walk_root (fun _ => true) false 0 (rt_o 2 2 true) 6 (nm "/") (nm "/") rt_root st0) =
+  Some [ nm "/etc/passwd"; nm "/etc/ssl"; nm "/usr/lib" ] /\
+  option_map (fun s1 => map fst (out s1))
+             (walk_root (fun _ => true) false 0 (rt_o 3 3 true) 6 (nm "/") (nm "/") rt_root st0) =
+  Some [ nm "/etc/ssl/cert"; nm "/usr/lib/x" ] /\
+  option_map (fun s1 => map fst (out s1))
+             (walk_root (fun _ => true) false 0 (rt_o 0 1 true) 6 (nm "/") (nm "/") rt_root st0) =
+  Some [ nm "/etc"; nm "/usr"; nm "/f" ].
+Proof. repeat split; vm_compute; reflexivity. Qed.
+(* the same tree mounted at /mnt gives the same depth profile *)
+Example rt_same_as_subdir :
+  option_map (fun s1 => List.length (out s1))
+             (walk_root (fun _ => true) false 0 (rt_o 0 2 true) 6 (nm "/") (nm "/") rt_root st0) =
+  option_map (fun s1 => List.length (out s1))
+             (walk_root (fun _ => true) false 0 (rt_o 0 2 true) 6 (nm "/mnt") (nm "/mnt") (NDir (nm "mnt") 1 false true rt_kids) st0).
+Proof. vm_compute. reflexivity. Qed.
+(* the model agrees with the specification listing at the root, and T1 / T2 apply to it *)
+Example rt_spec :
+  option_map out (walk_root (fun _ => true) false 0 (rt_o 0 2 true) 6 (nm "/") (nm "/") rt_root st0) =
+  Some (spec_rows (fun _ => true) false 0 2 (preorder false 5 2 (nm "/") rt_kids)).
+Proof. vm_compute. reflexivity. Qed.
+Lemma rt_names_ok : names_ok rt_kids.
+Proof. vm_compute. reflexivity. Qed.
+Lemma rt_nodup : NoDup (1 :: inodes_of rt_kids).
+Proof. vm_compute. repeat (constructor; [cbn; intuition discriminate|]). constructor. Qed.
+Lemma rt_fresh : forall x, In x (vis st0) -> ~ In x (1 :: inodes_of rt_kids).
+Proof. intros x []. Qed.
+Example rt_T1 := T1_dfs (fun _ => true) false (rt_o 0 2 true) 5 5 (nm "/") 1 false rt_kids (nm "/") (nm "/") st0
+                        eq_refl ltac:(vm_compute; lia) ltac:(vm_compute; lia) canon_ok_root rt_names_ok rt_nodup rt_fresh.
+Example rt_T2 := T2_bfs (fun _ => true) false (rt_o 0 2 false) 10 5 (nm "/") 1 false rt_kids (nm "/") (nm "/") st0
+                        eq_refl ltac:(vm_compute; lia) ltac:(vm_compute; lia) canon_ok_root rt_names_ok rt_nodup rt_fresh.
+Check rt_T1.
+Check rt_T2.
+Print Assumptions rt_T1.
+Print Assumptions rt_T2.
